@@ -295,9 +295,13 @@ class AnyState(State):
     """
 
     def _on_event_defined(self, event: str, transition: Transition, states: List[State]):
+        # The same event is defined again for every subclass of the machine: expand the
+        # placeholder only once per (event, state), or the states collect duplicated transitions.
+        expanded = transition.__dict__.setdefault("_expanded", set())
         for state in states:
-            if state.final:
+            if state.final or (str(event), id(state)) in expanded:
                 continue
+            expanded.add((str(event), id(state)))
             new_transition = transition._copy_with_args(source=state, event=event)
 
             state.transitions.add_transitions(new_transition)
